@@ -35,4 +35,77 @@ theorem C06_download_failed (env : Env) (c : Config) (base) (d : Disk) (o : Offe
 theorem C06_holds (env : Env) (libs : List (String × Bytes)) (ops : List Op) :
     (mon05 libs).accepts env (viewTrace env (World.fresh libs) ops) = true := C05_holds env libs ops
 
+/-! ### the request clauses as a monitor (evaluated on implementation traces, incl. real HTTP) -/
+
+theorem updateCore_installed_needs (env : Env) (c : Config) (base) (d : Disk) (sc : UpdateScript)
+    (h : (updateCore env c base d sc).2.1 = .installed) : sc.resp.isSome = true ∧ sc.dl.isSome = true := by
+  unfold updateCore at h
+  simp only [] at h
+  cases hr : sc.resp with
+  | none => simp [hr] at h
+  | some r =>
+    simp only [hr] at h
+    refine ⟨rfl, ?_⟩
+    cases hd : sc.dl with
+    | some b => rfl
+    | none =>
+      exfalso
+      unfold afterCheck at h
+      simp only [hd] at h
+      split at h
+      · cases h
+      · split at h
+        · cases h
+        · split at h
+          · cases h
+          · cases h
+          · simp [installStage] at h
+
+theorem updateCore_check_failed_acts (env : Env) (c : Config) (base) (d : Disk) (sc : UpdateScript) (hr : sc.resp = none) :
+    (updateCore env c base d sc).2.1 = .errCheck ∧ (updateCore env c base d sc).2.2.2 = false := by
+  unfold updateCore; simp [hr]
+
+/-- **C06, the request clauses, over all histories.** -/
+theorem C06_requests_hold (env : Env) (libs : List (String × Bytes)) (ops : List Op) :
+    mon06.accepts env (viewTrace env (World.fresh libs) ops) = true := by
+  apply Monitor.accepts_of_inv mon06 env libs (fun w g => g.cfg = w.config)
+  · rfl
+  · intro w g op pre hinv hshow
+    refine ⟨?_, by simp only [mon06]; rw [step_config, hinv]⟩
+    simp only [mon06, hinv]
+    cases op with
+    | update chan sc =>
+      cases hc : w.config with
+      | none => rfl
+      | some c =>
+        have hret := update_ret env w c hc chan sc
+        have hnet : (postView env w (.update chan sc)).net =
+            updateActs env (withChannel c chan) sc (updateCore env c (w.base c) w.disk sc).2.1
+              (updateCore env c (w.base c) w.disk sc).2.2.1 (updateCore env c (w.base c) w.disk sc).2.2.2 := by
+          simp [postView, step, update, hc, World.view]
+        simp only [hret]
+        rw [firstFail_none_iff]
+        intro ck hck
+        simp only [List.mem_cons, List.mem_nil_iff, or_false] at hck
+        rcases hck with rfl | rfl
+        · cases hr : sc.resp with
+          | some r => rfl
+          | none =>
+            obtain ⟨h1, h2⟩ := updateCore_check_failed_acts env c (w.base c) w.disk sc hr
+            simp only [Option.isSome, Bool.false_or, h1, decide_true, Bool.true_and, hnet, h2, updateActs, hr]
+            simp [isDownload]
+        · cases hi : decide ((updateCore env c (w.base c) w.disk sc).2.1 = UpdateOut.installed) with
+          | false => rfl
+          | true =>
+            have := updateCore_installed_needs env c (w.base c) w.disk sc (of_decide_eq_true hi)
+            simp [this.1, this.2]
+    | check chan resp =>
+      cases hc : w.config with
+      | none => rfl
+      | some c =>
+        cases resp with
+        | some r => simp [postView, step, check, hc, World.view, firstFail]
+        | none => simp [postView, step, check, hc, World.view, firstFail, checkCore]
+    | _ => rfl
+
 end Updater
